@@ -1009,7 +1009,8 @@ theorem handleFrame_headers_ok {s s' : St} {hs : Headers} {e : Bool} {evs : List
 
 theorem handleFrame_pp_ok {s s' : St} {hs : Headers} {e : Bool} {evs : List Event}
     (h : handleFrame s (.pushPromise hs) e = .ok (s', evs)) :
-    s' = s ∧ evs = [.pushPromise hs] ∧ s.isPush = false ∧ s.isClient = true ∧
+    s' = s ∧ evs = [.pushPromise hs] ++ (if e = true then [.data 0 true] else []) ∧
+      (e = true → checkContentLength s = .ok ()) ∧ s.isPush = false ∧ s.isClient = true ∧
       ∃ r, validateOn .push none hs = .ok r := by
   simp only [handleFrame] at h
   cases hp : s.isPush with
@@ -1023,15 +1024,40 @@ theorem handleFrame_pp_ok {s s' : St} {hs : Headers} {e : Bool} {evs : List Even
       | error e' => rw [hv] at h; cases h
       | ok r =>
         rw [hv] at h
-        cases h
-        exact ⟨rfl, rfl, rfl, rfl, r, rfl⟩
+        cases e with
+        | false =>
+          simp only [Bool.false_eq_true, if_false] at h
+          cases h
+          exact ⟨rfl, by simp, by simp, rfl, rfl, r, rfl⟩
+        | true =>
+          simp only [if_true] at h
+          cases hk : checkContentLength s with
+          | error e' => rw [hk] at h; cases h
+          | ok u =>
+            rw [hk] at h
+            cases h
+            exact ⟨rfl, by simp, fun _ => rfl, rfl, rfl, r, rfl⟩
 
 theorem handleFrame_other_ok {s s' : St} {t : Nat} {e : Bool} {evs : List Event}
-    (h : handleFrame s (.other t) e = .ok (s', evs)) : s' = s ∧ evs = [] := by
+    (h : handleFrame s (.other t) e = .ok (s', evs)) :
+    s' = s ∧ evs = (if e = true then [.data 0 true] else []) ∧
+      (e = true → checkContentLength s = .ok ()) := by
   simp only [handleFrame] at h
   split at h
   · cases h
-  · cases h; exact ⟨rfl, rfl⟩
+  · simp only [bind, Except.bind] at h
+    cases e with
+    | false =>
+      simp only [Bool.false_eq_true, if_false] at h
+      cases h; exact ⟨rfl, by simp, by simp⟩
+    | true =>
+      simp only [if_true] at h
+      cases hk : checkContentLength s with
+      | error e' => rw [hk] at h; cases h
+      | ok u =>
+        rw [hk] at h
+        cases h
+        exact ⟨rfl, by simp, fun _ => rfl⟩
 
 /-! ### content-length bookkeeping over event traces -/
 
@@ -1130,6 +1156,22 @@ theorem good_congr {s s' : St} {evs : List Event} (h : Good s evs)
 theorem hdrKind_hasStream (s : St) (hi : s.hstate = .initial) : hasStream (hdrKind s) = true := by
   unfold hdrKind; simp only [hi, if_true]; cases s.isClient <;> rfl
 
+/-- reporting an event that carries no body byte and no header block -/
+theorem good_emit_zero {s : St} {evs : List Event} (hg : Good s evs) (ev : Event)
+    (hb : bodyBytes [ev] = 0) (hf : firstHeaders [ev] = none)
+    (hchk : ev.ended = true → checkContentLength s = .ok ()) : Good s (evs ++ [ev]) := by
+  obtain ⟨⟨hcl, h0, h1⟩, hc⟩ := hg
+  have hinv : Inv s (evs ++ [ev]) := by
+    refine ⟨?_, ?_, ?_⟩
+    · simp [bodyBytes_append, hb, hcl]
+    · intro hh
+      refine ⟨?_, (h0 hh).2⟩
+      simp [firstHeaders_append, (h0 hh).1, hf]
+    · intro hne
+      obtain ⟨hs0, hf0, he⟩ := h1 hne
+      exact ⟨hs0, by simp [firstHeaders_append, hf0], he⟩
+  exact ⟨hinv, clOk_emit _ _ hc (fun hend => ended_ok _ _ hinv (hchk hend))⟩
+
 theorem handleFrame_good {s s' : St} {f : Frame} {e : Bool} {evs new : List Event}
     (hg : Good s evs) (h : handleFrame s f e = .ok (s', new)) : Good s' (evs ++ new) := by
   obtain ⟨hi, hc⟩ := hg
@@ -1185,8 +1227,35 @@ theorem handleFrame_good {s s' : St} {f : Frame} {e : Bool} {evs new : List Even
       intro hend
       exact ended_ok _ _ hinv (hchk hend)
   | pushPromise hs =>
-    obtain ⟨rfl, rfl, _⟩ := handleFrame_pp_ok h
-    have hinv : Inv s' (evs ++ [.pushPromise hs]) := by
+    obtain ⟨rfl, rfl, hchk, _⟩ := handleFrame_pp_ok h
+    have g1 : Good s' (evs ++ [.pushPromise hs]) :=
+      good_emit_zero ⟨⟨hcl, h0, h1⟩, hc⟩ _ rfl rfl (by intro hh; cases hh)
+    cases e with
+    | false => simpa using g1
+    | true =>
+      have g2 := good_emit_zero g1 (.data 0 true) rfl rfl (fun _ => hchk rfl)
+      simpa using g2
+  | other t =>
+    obtain ⟨rfl, rfl, hchk⟩ := handleFrame_other_ok h
+    cases e with
+    | false =>
+      have g0 : Good s' evs := ⟨⟨hcl, h0, h1⟩, hc⟩
+      simpa using g0
+    | true =>
+      have g2 := good_emit_zero (⟨⟨hcl, h0, h1⟩, hc⟩ : Good s' evs) (.data 0 true) rfl rfl
+        (fun _ => hchk rfl)
+      simpa using g2
+
+/-! ### `_receive_request_or_push_data` and `handle_event` -/
+
+theorem shortcut_good {s s' : St} {evs new : List Event} {n : Nat} {se : Bool} (hg : Good s evs)
+    (h : shortcut s n se = .ok (s', new)) : Good s' (evs ++ new) := by
+  obtain ⟨⟨hcl, h0, h1⟩, hc⟩ := hg
+  simp only [shortcut] at h
+  split at h
+  · cases h
+  · cases h
+    have hinv : Inv { s with cl := s.cl + n, rem := s.rem - n } (evs ++ [.data n false]) := by
       refine ⟨?_, ?_, ?_⟩
       · simp [bodyBytes_append, bodyBytes, hcl]
       · intro hh
@@ -1195,28 +1264,7 @@ theorem handleFrame_good {s s' : St} {f : Frame} {e : Bool} {evs new : List Even
       · intro hne
         obtain ⟨hs0, hf, he⟩ := h1 hne
         exact ⟨hs0, by simp [firstHeaders_append, hf], he⟩
-    refine ⟨hinv, clOk_emit _ _ hc ?_⟩
-    intro hend; cases hend
-  | other t =>
-    obtain ⟨rfl, rfl⟩ := handleFrame_other_ok h
-    simpa using ⟨⟨hcl, h0, h1⟩, hc⟩
-
-/-! ### `_receive_request_or_push_data` and `handle_event` -/
-
-theorem shortcut_good {s : St} {evs : List Event} (n : Nat) (hg : Good s evs) :
-    Good (shortcut s n).1 (evs ++ (shortcut s n).2) := by
-  obtain ⟨⟨hcl, h0, h1⟩, hc⟩ := hg
-  simp only [shortcut]
-  have hinv : Inv { s with cl := s.cl + n, rem := s.rem - n } (evs ++ [.data n false]) := by
-    refine ⟨?_, ?_, ?_⟩
-    · simp [bodyBytes_append, bodyBytes, hcl]
-    · intro hh
-      refine ⟨?_, (h0 hh).2⟩
-      simp [firstHeaders_append, (h0 hh).1, firstHeaders]
-    · intro hne
-      obtain ⟨hs0, hf, he⟩ := h1 hne
-      exact ⟨hs0, by simp [firstHeaders_append, hf], he⟩
-  exact ⟨hinv, clOk_emit _ _ hc (by intro hend; cases hend)⟩
+    exact ⟨hinv, clOk_emit _ _ hc (by intro hend; cases hend)⟩
 
 theorem receive_good {s s' : St} {op : Op} {evs new : List Event}
     (hg : Good s evs) (h : receive s op = .ok (s', new)) : Good s' (evs ++ new) := by
@@ -1231,13 +1279,14 @@ theorem receive_good {s s' : St} {op : Op} {evs new : List Event}
     · rename_i v hv
       obtain ⟨s1, e1⟩ := v
       simp only at h
-      cases h
-      exact good_congr (handleFrame_good (by exact good_congr hg rfl rfl rfl) hv) rfl rfl rfl
+      split at h
+      · cases h
+      · cases h
+        exact good_congr (handleFrame_good (by exact good_congr hg rfl rfl rfl) hv) rfl rfl rfl
   | frag n fin =>
     simp only [receive] at h
     split at h
-    · cases h
-      exact shortcut_good n (good_congr hg rfl rfl rfl)
+    · exact shortcut_good (by exact good_congr hg rfl rfl rfl) h
     · simp only [bind, Except.bind] at h
       split at h
       · cases h
@@ -1249,27 +1298,14 @@ theorem receive_good {s s' : St} {op : Op} {evs new : List Event}
   | fin =>
     simp only [receive] at h
     split at h
-    · cases h
-      exact shortcut_good 0 (good_congr hg rfl rfl rfl)
+    · exact shortcut_good (by exact good_congr hg rfl rfl rfl) h
     · simp only [bind, Except.bind] at h
       split at h
       · cases h
       · rename_i v hv
         cases h
         have hg' : Good { s with recvEnded := true } evs := good_congr hg rfl rfl rfl
-        obtain ⟨⟨hcl, h0, h1⟩, hc⟩ := hg'
-        have hinv : Inv { s with recvEnded := true } (evs ++ [.data 0 true]) := by
-          refine ⟨?_, ?_, ?_⟩
-          · simpa [bodyBytes_append, bodyBytes] using hcl
-          · intro hh
-            refine ⟨?_, (h0 hh).2⟩
-            simp [firstHeaders_append, (h0 hh).1, firstHeaders]
-          · intro hne
-            obtain ⟨hs0, hf, he⟩ := h1 hne
-            exact ⟨hs0, by simp [firstHeaders_append, hf], he⟩
-        refine ⟨hinv, clOk_emit _ _ hc ?_⟩
-        intro _
-        exact ended_ok _ _ hinv (by cases v; exact hv)
+        exact good_emit_zero hg' (.data 0 true) rfl rfl (fun _ => by cases v; exact hv)
   | pp hs fin =>
     simp only [receive] at h
     exact handleFrame_good (by exact good_congr hg rfl rfl rfl) h
@@ -1359,13 +1395,20 @@ theorem handleFrame_events_wf {s s' : St} {f : Frame} {e : Bool} {new : List Eve
     · show WellFormed (hdrKind s) hs
       rw [hdrKind_trailers s hst]; exact validateOn_wf hv
   | pushPromise hs =>
-    obtain ⟨_, rfl, _, _, r, hv⟩ := handleFrame_pp_ok h
+    obtain ⟨_, rfl, _, _, _, r, hv⟩ := handleFrame_pp_ok h
     intro ev hev
-    simp at hev; subst hev
-    exact validateOn_wf hv
+    rcases List.mem_append.1 hev with h1 | h2
+    · simp at h1; subst h1
+      exact validateOn_wf hv
+    · split at h2
+      · simp at h2; subst h2; trivial
+      · cases h2
   | other t =>
-    obtain ⟨_, rfl⟩ := handleFrame_other_ok h
-    intro ev hev; cases hev
+    obtain ⟨_, rfl, _⟩ := handleFrame_other_ok h
+    intro ev hev
+    split at hev
+    · simp at hev; subst hev; trivial
+    · cases hev
 
 theorem eventWF_congr {s s' : St} (h1 : s'.hstate = s.hstate) (h2 : s'.isClient = s.isClient)
     {ev : Event} (h : EventWF s' ev) : EventWF s ev := by
@@ -1375,6 +1418,13 @@ theorem eventWF_congr {s s' : St} (h1 : s'.hstate = s.hstate) (h2 : s'.isClient 
     simpa [EventWF, this] using h
   | pushPromise hs => exact h
   | data n e => trivial
+
+theorem shortcut_events {s s' : St} {n : Nat} {se : Bool} {new : List Event}
+    (h : shortcut s n se = .ok (s', new)) : se = false ∧ new = [.data n false] := by
+  simp only [shortcut] at h
+  cases se with
+  | true => simp at h
+  | false => simp at h; exact ⟨rfl, h.2.symm⟩
 
 theorem receive_events_wf {s s' : St} {op : Op} {new : List Event}
     (h : receive s op = .ok (s', new)) : ∀ ev ∈ new, EventWF s ev := by
@@ -1389,12 +1439,14 @@ theorem receive_events_wf {s s' : St} {op : Op} {new : List Event}
     · rename_i v hv
       obtain ⟨s1, e1⟩ := v
       simp only at h
-      cases h
-      exact fun ev hev => eventWF_congr rfl rfl (handleFrame_events_wf hv ev hev)
+      split at h
+      · cases h
+      · cases h
+        exact fun ev hev => eventWF_congr rfl rfl (handleFrame_events_wf hv ev hev)
   | frag n fin =>
     simp only [receive] at h
     split at h
-    · cases h
+    · obtain ⟨_, rfl⟩ := shortcut_events h
       intro ev hev; simp at hev; subst hev; trivial
     · simp only [bind, Except.bind] at h
       split at h
@@ -1407,7 +1459,7 @@ theorem receive_events_wf {s s' : St} {op : Op} {new : List Event}
   | fin =>
     simp only [receive] at h
     split at h
-    · cases h
+    · obtain ⟨_, rfl⟩ := shortcut_events h
       intro ev hev; simp at hev; subst hev; trivial
     · simp only [bind, Except.bind] at h
       split at h
@@ -1554,51 +1606,82 @@ theorem handleFrame_err {s : St} {f : Frame} {ended : Bool} {e : Err}
       · simp only [bind, Except.bind] at h
         split at h
         · rename_i e' hv; cases h; exact Or.inl (validateOn_err _ _ _ _ hv)
-        · cases h
+        · cases ended with
+          | false => simp at h
+          | true =>
+            simp only [if_true] at h
+            split at h
+            · rename_i e' hc; cases h; exact Or.inl (checkContentLength_err _ _ hc)
+            · cases h
   | other t =>
     simp only [handleFrame] at h
     split at h
     · cases h; exact Or.inr rfl
-    · cases h
+    · simp only [bind, Except.bind] at h
+      cases ended with
+      | false => simp at h
+      | true =>
+        simp only [if_true] at h
+        split at h
+        · rename_i e' hc; cases h; exact Or.inl (checkContentLength_err _ _ hc)
+        · cases h
 
+theorem shortcut_err {s : St} {n : Nat} {se : Bool} {e : Err}
+    (h : shortcut s n se = .error e) : e = frameError ∧ se = true := by
+  simp only [shortcut] at h
+  cases se with
+  | true => simp at h; exact ⟨h.symm, rfl⟩
+  | false => simp at h
 
 theorem receive_err {s : St} {op : Op} {e : Err} (h : receive s op = .error e) :
-    e = msgErr ∨ e = frameUnexpected := by
+    e = msgErr ∨ e = frameUnexpected ∨ e = frameError := by
+  have lift : ∀ {e : Err}, (e = msgErr ∨ e = frameUnexpected) →
+      (e = msgErr ∨ e = frameUnexpected ∨ e = frameError) := by
+    intro e he; rcases he with h1 | h1
+    · exact Or.inl h1
+    · exact Or.inr (Or.inl h1)
   cases op with
-  | hdr hs fin => simp only [receive] at h; exact handleFrame_err h
+  | hdr hs fin => simp only [receive] at h; exact lift (handleFrame_err h)
   | data total present fin =>
     simp only [receive, bind, Except.bind] at h
     split at h
-    · rename_i e' hv; cases h; exact handleFrame_err hv
-    · cases h
+    · rename_i e' hv; cases h; exact lift (handleFrame_err hv)
+    · split at h
+      · rename_i e' hc
+        cases h
+        simp only [endCheck] at hc
+        split at hc
+        · cases hc; exact Or.inr (Or.inr rfl)
+        · cases hc
+      · cases h
   | frag n fin =>
     simp only [receive] at h
     split at h
-    · cases h
+    · exact Or.inr (Or.inr (shortcut_err h).1)
     · simp only [bind, Except.bind] at h
       split at h
-      · rename_i e' hv; cases h; exact handleFrame_err hv
+      · rename_i e' hv; cases h; exact lift (handleFrame_err hv)
       · cases h
   | fin =>
     simp only [receive] at h
     split at h
-    · cases h
+    · exact Or.inr (Or.inr (shortcut_err h).1)
     · simp only [bind, Except.bind] at h
       split at h
       · rename_i e' hc; cases h; exact Or.inl (checkContentLength_err _ _ hc)
       · cases h
-  | pp hs fin => simp only [receive] at h; exact handleFrame_err h
-  | other t fin => simp only [receive] at h; exact handleFrame_err h
+  | pp hs fin => simp only [receive] at h; exact lift (handleFrame_err h)
+  | other t fin => simp only [receive] at h; exact lift (handleFrame_err h)
   | hdrdata hs n fin =>
     simp only [receive, bind, Except.bind] at h
     split at h
-    · rename_i e' hv; cases h; exact handleFrame_err hv
+    · rename_i e' hv; cases h; exact lift (handleFrame_err hv)
     · split at h
-      · rename_i e' hv; cases h; exact handleFrame_err hv
+      · rename_i e' hv; cases h; exact lift (handleFrame_err hv)
       · cases h
 
 theorem step_err (s : St) (op : Op) (e : Err) (h : (step s op).2.2 = some e) :
-    e = msgErr ∨ e = frameUnexpected := by
+    e = msgErr ∨ e = frameUnexpected ∨ e = frameError := by
   unfold step at h
   split at h
   · cases h
@@ -1645,19 +1728,21 @@ theorem step_pp_rejects (s : St) (hs : Headers) (fin : Bool) (hd : s.done = fals
 
 /-! ### when the FIN arrives -/
 
-/-- the op carries the FIN and its last frame is one whose handler looks at `stream_ended` -/
-def endsOnBody (s : St) : Op → Bool
+/-- the `StreamDataReceived` has `end_stream` set -/
+def carriesFin : Op → Bool
   | .hdr _ fin => fin
   | .data _ _ fin => fin
-  | .frag n fin => fin && n == s.rem
-  | .fin => s.rem == 0
+  | .frag _ fin => fin
+  | .fin => true
   | .hdrdata _ _ fin => fin
-  | .pp _ _ => false
-  | .other _ _ => false
+  | .pp _ fin => fin
+  | .other _ fin => fin
 
-theorem fin_on_body_reports_end (s : St) (op : Op) (hd : s.done = false)
-    (ha : applicable s op = true) (hb : endsOnBody s op = true) (hok : (step s op).2.2 = none) :
-    ∃ ev ∈ (step s op).2.1, ev.ended = true := by
+/-- whenever the FIN of the stream arrives and the connection is not closed,
+    the last event returned reports the end of the stream -/
+theorem fin_reports_end (s : St) (op : Op) (hd : s.done = false)
+    (ha : applicable s op = true) (hb : carriesFin op = true) (hok : (step s op).2.2 = none) :
+    ∃ ev, (step s op).2.1.getLast? = some ev ∧ ev.ended = true := by
   unfold step at hok ⊢
   simp only [hd, ha, Bool.false_eq_true, if_false, not_true_eq_false] at hok ⊢
   cases hr : receive s op with
@@ -1667,42 +1752,66 @@ theorem fin_on_body_reports_end (s : St) (op : Op) (hd : s.done = false)
     simp only
     cases op with
     | hdr hs fin =>
-      simp only [endsOnBody] at hb; subst hb
+      simp only [carriesFin] at hb; subst hb
       simp only [receive, Bool.or_true] at hr
       obtain ⟨_, rfl, _, _⟩ := handleFrame_headers_ok hr
-      exact ⟨_, List.mem_singleton.2 rfl, rfl⟩
+      exact ⟨_, rfl, rfl⟩
     | data total present fin =>
-      simp only [endsOnBody] at hb; subst hb
-      simp only [receive, Bool.or_true, bind, Except.bind] at hr
+      simp only [carriesFin] at hb; subst hb
+      simp only [receive, Bool.or_true, Bool.true_and, bind, Except.bind] at hr
       split at hr
       · cases hr
       · rename_i v hv
         obtain ⟨s1, e1⟩ := v
-        simp only at hr; cases hr
-        obtain ⟨_, _, _, rfl⟩ := handleFrame_data_ok hv
-        exact ⟨.data present true, by simp, rfl⟩
+        simp only at hr
+        split at hr
+        · cases hr
+        · rename_i u hc
+          cases hr
+          obtain ⟨_, hs1, _, rfl⟩ := handleFrame_data_ok hv
+          have hz : total - present = 0 := by
+            simp only [endCheck] at hc
+            split at hc
+            · cases hc
+            · rename_i hne
+              rw [hs1] at hne
+              simp at hne
+              exact hne
+          simp [hz, Event.ended]
     | frag n fin =>
-      simp only [endsOnBody, Bool.and_eq_true, beq_iff_eq] at hb
-      obtain ⟨rfl, rfl⟩ := hb
-      simp only [receive, Bool.or_true, Nat.lt_irrefl, if_false, bind, Except.bind] at hr
+      simp only [carriesFin] at hb; subst hb
+      simp only [receive, Bool.or_true] at hr
       split at hr
-      · cases hr
-      · rename_i v hv
-        obtain ⟨s1, e1⟩ := v
-        simp only at hr; cases hr
-        obtain ⟨_, _, _, rfl⟩ := handleFrame_data_ok hv
-        exact ⟨.data s.rem true, by simp, rfl⟩
+      · have := (shortcut_events hr).1; cases this
+      · simp only [bind, Except.bind] at hr
+        split at hr
+        · cases hr
+        · rename_i v hv
+          obtain ⟨s1, e1⟩ := v
+          simp only at hr; cases hr
+          obtain ⟨_, _, _, rfl⟩ := handleFrame_data_ok hv
+          simp [Event.ended]
     | fin =>
-      simp only [endsOnBody, beq_iff_eq] at hb
-      simp only [receive, hb, Nat.lt_irrefl, if_false, bind, Except.bind] at hr
+      simp only [receive] at hr
       split at hr
-      · cases hr
-      · cases hr
-        exact ⟨.data 0 true, by simp, rfl⟩
-    | pp hs fin => simp [endsOnBody] at hb
-    | other t fin => simp [endsOnBody] at hb
+      · have := (shortcut_events hr).1; cases this
+      · simp only [bind, Except.bind] at hr
+        split at hr
+        · cases hr
+        · cases hr
+          exact ⟨_, rfl, rfl⟩
+    | pp hs fin =>
+      simp only [carriesFin] at hb; subst hb
+      simp only [receive, Bool.or_true] at hr
+      obtain ⟨_, rfl, _⟩ := handleFrame_pp_ok hr
+      exact ⟨.data 0 true, by simp, rfl⟩
+    | other t fin =>
+      simp only [carriesFin] at hb; subst hb
+      simp only [receive, Bool.or_true] at hr
+      obtain ⟨_, rfl, _⟩ := handleFrame_other_ok hr
+      exact ⟨.data 0 true, by simp, rfl⟩
     | hdrdata hs n fin =>
-      simp only [endsOnBody] at hb; subst hb
+      simp only [carriesFin] at hb; subst hb
       simp only [receive, Bool.or_true, bind, Except.bind] at hr
       split at hr
       · cases hr
@@ -1721,6 +1830,11 @@ theorem fin_on_body_reports_end (s : St) (op : Op) (hd : s.done = false)
           obtain ⟨_, _, _, rfl⟩ := handleFrame_data_ok hv2
           exact ⟨.data n true, by simp, rfl⟩
 
+theorem trace_append (s : St) (pre : List Op) (op : Op) :
+    trace s (pre ++ [op]) = trace s pre ++ (step (finalState s pre) op).2.1 := by
+  induction pre generalizing s with
+  | nil => simp [trace, finalState]
+  | cons o t ih => simp [trace, finalState, ih, List.append_assoc]
 
 /-! ### what `allDeclaredCL` lists -/
 
